@@ -669,7 +669,14 @@ func glyfOutlines(r *rand.Rand, o Opts, n int, widths []int, info *Info) *glyf.O
 				if r.IntN(2) == 0 {
 					cg.Instructions = []byte{} // instruction field present, zero instructions
 				}
-				cg.Components[len(comps)-1].Flags |= glyf.FlagWeHaveInstructions
+				// the flag is looked for on every component record; real fonts
+				// have it on the last one, some only on an earlier one
+				at := len(comps) - 1
+				if len(comps) > 1 && r.IntN(3) == 0 {
+					at = r.IntN(len(comps) - 1)
+					info.Classes = append(info.Classes, "glyf:instructions-flag-not-on-last-component")
+				}
+				cg.Components[at].Flags |= glyf.FlagWeHaveInstructions
 			}
 			out.Glyphs[i] = &glyf.Glyph{Rect16: box, Data: cg}
 			boxes[i] = box
